@@ -61,7 +61,7 @@ b64str = st.binary(max_size=12).map(rb.encode)
 
 
 @st.composite
-def plans(draw, sers=SERS, algs=None, encs=None, max_recipients=4, allow_zip=True, small=False, force_zip=None, curves=None):
+def plans(draw, sers=SERS, algs=None, encs=None, max_recipients=4, allow_zip=True, small=False, force_zip=None, curves=None, allow_headerless=False):
     algs = algs or ALGS
     encs = encs or ENCS
     ser = draw(st.sampled_from(sers))
@@ -71,7 +71,8 @@ def plans(draw, sers=SERS, algs=None, encs=None, max_recipients=4, allow_zip=Tru
         pool = [a for a in algs if a not in rjwe.DIRECT]
         if first in rjwe.DIRECT:
             first = draw(st.sampled_from(pool))
-        alglist = [first] + [draw(st.sampled_from(pool)) for _ in range(n - 1)]
+        # one algorithm for all recipients in a third of the cases, so that it can live in a shared header
+        alglist = [first] * n if draw(st.integers(0, 2)) == 0 else [first] + [draw(st.sampled_from(pool)) for _ in range(n - 1)]
     else:
         alglist = [first]
     if any(a in rjwe.ECDH_1PU and a != "ECDH-1PU" for a in alglist):
@@ -88,13 +89,15 @@ def plans(draw, sers=SERS, algs=None, encs=None, max_recipients=4, allow_zip=Tru
     sender = None
     if any(a in rjwe.ECDH_1PU for a in alglist):
         sender = gk.key_to_record(draw(key_for("ECDH-1PU", enc, curve)))
+    # several recipients that carry no header of their own (alg shared): only each single recipient can then decrypt (no kid to resolve)
+    headerless = allow_headerless and n > 1 and place != "recipient" and draw(st.booleans())
     recipients = []
     for i, alg in enumerate(alglist):
         key = draw(key_for(alg, enc, curve))
         hdr = {}
         if place == "recipient":
             hdr["alg"] = alg
-        kid = f"r{i}" if (n > 1 or draw(st.booleans())) else None
+        kid = None if headerless else (f"r{i}" if (n > 1 or draw(st.booleans())) else None)
         rec = {"alg": alg, "key": gk.key_to_record(key), "header": hdr or None, "kid": kid}
         if alg in rjwe.PBES2 and draw(st.booleans()):
             rec["p2c"] = draw(st.integers(1, 64))
@@ -117,7 +120,9 @@ def plans(draw, sers=SERS, algs=None, encs=None, max_recipients=4, allow_zip=Tru
     else:
         protected.update(ex)
     return {"ser": ser, "enc": enc, "zip": zipv, "plaintext_hex": pt.hex(), "aad_hex": None if aad is None else aad.hex(),
-            "protected": protected, "unprotected": unprotected, "recipients": recipients, "sender": sender, "place": place}
+            "protected": protected, "unprotected": unprotected, "recipients": recipients, "sender": sender, "place": place, "headerless": headerless,
+            # role-specific key metadata: producer's key objects list only the producing operations, the consumer's the consuming ones
+            "role": draw(st.sampled_from([None, None, None, "ops", "use", "ops+use"]))}
 
 
 def plan_label(plan) -> tuple:
@@ -137,15 +142,25 @@ def _rec_header(plan, r, with_kid: bool):
     return h
 
 
+def role_params(role, side: str, base=None):
+    out = dict(base or {})
+    if role and "ops" in role:
+        out["key_ops"] = ["encrypt", "wrapKey", "deriveKey"] if side == "enc" else ["decrypt", "unwrapKey", "deriveKey"]
+    if role and "use" in role:
+        out["use"] = "enc"
+    return out or None
+
+
 def jose_encrypt(plan, keymode: str = "attached", form: str = "dict"):
     """keymode: 'attached' (key handed to add_recipient / positional), 'keyset' (kid lookup), 'callable'."""
     from joserfc import jwe
     from joserfc.jwk import KeySet
     pt = bytes.fromhex(plan["plaintext_hex"])
-    sender = jkey(gk.key_from_record(plan["sender"]), form, True) if plan["sender"] else None
+    role = plan.get("role")
+    sender = jkey(gk.key_from_record(plan["sender"]), form, True, role_params(role, "enc")) if plan["sender"] else None
     recs = plan["recipients"]
     keys = [jkey(rk.public_of(gk.key_from_record(r["key"])) if gk.key_from_record(r["key"])["kty"] != "oct" else gk.key_from_record(r["key"]),
-                 form, False if r["key"]["kty"] != "oct" else True, {"kid": r["kid"]} if r["kid"] else None) for r in recs]
+                 form, False if r["key"]["kty"] != "oct" else True, role_params(role, "enc", {"kid": r["kid"]} if r["kid"] else None)) for r in recs]
     if plan["ser"] == "compact":
         prot = copy.deepcopy(plan["protected"])
         h = _rec_header(plan, recs[0], keymode != "attached" and recs[0]["kid"] is not None)
@@ -163,7 +178,7 @@ def jose_encrypt(plan, keymode: str = "attached", form: str = "dict"):
 
 
 def jose_private_keys(plan, form: str = "dict"):
-    return [jkey(gk.key_from_record(r["key"]), form, True, {"kid": r["kid"]} if r["kid"] else None) for r in plan["recipients"]]
+    return [jkey(gk.key_from_record(r["key"]), form, True, role_params(plan.get("role"), "dec", {"kid": r["kid"]} if r["kid"] else None)) for r in plan["recipients"]]
 
 
 def jose_decrypt(token, plan, mode: str = "all", form: str = "dict", index: int = 0):
@@ -172,7 +187,7 @@ def jose_decrypt(token, plan, mode: str = "all", form: str = "dict", index: int 
     from joserfc import jwe
     from joserfc.jwk import KeySet
     keys = jose_private_keys(plan, form)
-    sender = jkey(rk.public_of(gk.key_from_record(plan["sender"])), form, False) if plan["sender"] else None
+    sender = jkey(rk.public_of(gk.key_from_record(plan["sender"])), form, False, role_params(plan.get("role"), "dec")) if plan["sender"] else None
     if isinstance(token, (str, bytes)):
         return jwe.decrypt_compact(token, keys[0], algorithms=ALL_NAMES, sender_key=sender)
     if mode == "all":
